@@ -7,7 +7,7 @@ Definition put_plan_spec (key : pyval) : put_plan :=
   match key with
   | VBytes _ => PutBlob true
   | VStr _ => PutNative true
-  | VFloat _ => PutNative true
+  | VFloat f => if is_nan key then PutPickle false else PutNative true      (* `key == key`: NaN is pickled *)
   | VInt z => if in_int64 z then PutNative true else PutPickle false
   | VOther _ => PutPickle false
   | VStream _ => PutPickle false
@@ -15,9 +15,10 @@ Definition put_plan_spec (key : pyval) : put_plan :=
 
 Lemma bridge_put_plan key : put_plan_of key = put_plan_spec key.
 Proof.
-  destruct key; try reflexivity.
-  unfold put_plan_of, put_plan_spec, in_int64, int64_min, int64_max. cbn.
-  destruct (_ <=? z); destruct (z <=? _); reflexivity.
+  destruct key as [z|f|s|b|i|b]; try reflexivity.
+  - unfold put_plan_of, put_plan_spec, in_int64, int64_min, int64_max. cbn.
+    destruct (_ <=? z); destruct (z <=? _); reflexivity.
+  - destruct f; reflexivity.
 Qed.
 
 Definition pickle_plan (m : Z) (pkv : pyval -> list Z) (value : pyval) : store_plan :=
@@ -208,13 +209,13 @@ Lemma put_spec c key :
   put c key = match key with
               | VBytes b => PutOk (SBlob b) true
               | VStr s => if encodable s then PutOk (SText s) true else PutRaise
-              | VFloat FNaN => PutOk SNull true
+              | VFloat FNaN => PutOk (SBlob (pkk c key)) false
               | VFloat f => PutOk (SReal f) true
               | VInt z => if in_int64 z then PutOk (SInt z) true else PutOk (SBlob (pkk c key)) false
               | _ => PutOk (SBlob (pkk c key)) false
               end.
 Proof.
-  unfold put. rewrite bridge_put_plan. destruct key as [z|f|s|b|i|b]; cbn; auto.
+  unfold put, put_with. rewrite bridge_put_plan. destruct key as [z|f|s|b|i|b]; cbn; auto.
   - destruct (in_int64 z) eqn:R; cbn; rewrite ?R; reflexivity.
   - destruct f; reflexivity.
   - destruct (encodable s); reflexivity.
@@ -235,7 +236,7 @@ Lemma key_num_none c k : key_domain k = true -> key_num k = None ->
 Proof.
   intros D. rewrite put_spec. destruct k as [z|f|s|b|i|b]; cbn in *; try discriminate.
   - destruct (in_int64 z); [discriminate|]. intros _. right; right. repeat split; intros; discriminate.
-  - destruct f as [|[]|[]|]; discriminate.
+  - destruct f as [|[]|[]|]; try discriminate. intros _. right; right. repeat split; intros; discriminate.
   - intros _. left. exists s. rewrite D. auto.
   - intros _. right; left. exists b. auto.
   - intros _. right; right. repeat split; intros; discriminate.
@@ -287,7 +288,7 @@ Proof.
   intros [_ Hk] D. rewrite put_spec. unfold get.
   destruct k as [z|f|s|b|i|b]; cbn in *; try discriminate.
   - destruct (in_int64 z); intros E; inversion E; subst; cbn; auto.
-  - destruct f; try discriminate; intros E; inversion E; subst; reflexivity.
+  - destruct f; intros E; inversion E; subst; cbn; auto.
   - rewrite D. intros E; inversion E; subst; reflexivity.
   - intros E; inversion E; subst; reflexivity.
   - intros E; inversion E; subst; cbn; auto.
@@ -313,8 +314,44 @@ Example key_identity_examples :
   key_eq (VInt 1) (VFloat (FFin 1 0)) = true /\ key_eq (VInt 0) (VFloat (FZero true)) = true /\
   key_eq (VStr [97]) (VBytes [97]) = false /\
   key_eq (VInt 9007199254740993) (VFloat (FFin 1 53)) = false /\
-  key_eq (VInt 9223372036854775808) (VFloat (FFin 1 63)) = false.
+  key_eq (VInt 9223372036854775808) (VFloat (FFin 1 63)) = false /\
+  (* all NaNs are one key, different from every number, text, bytes and object *)
+  key_domain (VFloat FNaN) = true /\ key_eq (VFloat FNaN) (VFloat FNaN) = true /\
+  key_eq (VFloat FNaN) (VInt 0) = false /\ key_eq (VFloat FNaN) (VFloat (FInf false)) = false /\
+  key_eq (VFloat FNaN) (VStr [110; 97; 110]) = false /\ key_eq (VFloat FNaN) (VOther 0) = false.
 Proof. repeat split; reflexivity. Qed.
+
+(* Disk.put never hands SQLite a NULL key (nor a REAL NaN, which SQLite would store as NULL): for EVERY key and
+   every codec.  Before the repair of C02-F2 float('nan') was bound natively and became NULL
+   (FormatFacts.released_put_nan_null). *)
+Theorem put_never_null c k dbk raw : put c k = PutOk dbk raw -> dbk <> SNull /\ dbk <> SReal FNaN.
+Proof.
+  rewrite put_spec. destruct k as [z|f|s|b|i|b].
+  - destruct (in_int64 z); intros E; inversion E; split; discriminate.
+  - destruct f; intros E; inversion E; split; discriminate.
+  - destruct (encodable s); intros E; inversion E; split; discriminate.
+  - intros E; inversion E; split; discriminate.
+  - intros E; inversion E; split; discriminate.
+  - intros E; inversion E; split; discriminate.
+Qed.
+
+Lemma key_domain_spec k :
+  key_domain k = match k with VStr s => encodable s | VStream _ => false | _ => true end.
+Proof. destruct k; reflexivity. Qed.
+
+Theorem nan_is_one_key :
+  key_domain (VFloat FNaN) = true /\ key_eq (VFloat FNaN) (VFloat FNaN) = true /\
+  forall k, k <> VFloat FNaN -> key_eq (VFloat FNaN) k = false /\ key_eq k (VFloat FNaN) = false.
+Proof.
+  split; [reflexivity|]. split; [reflexivity|]. intros k N. unfold key_eq.
+  destruct k as [z|f|s|b|i|b]; cbn [key_num num_of_fl]; try (split; reflexivity).
+  - destruct (in_int64 z); split; reflexivity.
+  - destruct f as [|[]|[]|m e]; try (split; reflexivity). contradiction.
+Qed.
+
+(* a NaN key: pickled, not raw; found again by any NaN; decoded back to NaN by iteration *)
+Theorem put_nan c : put c (VFloat FNaN) = PutOk (SBlob (pkk c (VFloat FNaN))) false.
+Proof. rewrite put_spec. reflexivity. Qed.
 
 (* ---------------- JSONDisk values ---------------- *)
 Definition jcodec_ok (j : jcodec) : Prop := forall v, unjz j (jz j v) = Some v.
